@@ -1040,6 +1040,8 @@ class Interp(object):
         # floating point: a share whose logit is far below the largest underflows to exactly 0.  A case can ask
         # for that regime (memo['softmax_zero'] = positions within the row that underflow).
         zero = set(c.memo.get('softmax_zero', ()))
+        if c.memo.get('softmax_zero_call') is not None and c.memo['softmax_zero_call'] != len(c.softmax):
+          zero = set()  # only the n-th distinct softmax row of this run underflows
         vs = [Fraction(0) if i in zero else c.fresh_real('softmax') for i in range(len(row))]
         c.assume(*[s_ > 0 for s_ in vs if is_z(s_)])
         c.assume(z3.Sum([Z(s_) for s_ in vs]) == 1)
